@@ -3,7 +3,7 @@
   polymorphic in the scalar.
 
   * `emu_base/pulser_adapter.py`: `_unique_observable_times`, `_get_target_times` (floor, the
-    set unions as a sorted duplicate-free list, the merge loop of commits c68c973/a740bae), the
+    set unions as a sorted duplicate-free list, the merge loop of commits c68c973/a740bae/b8e723e), the
     mid-points that give the rows of Ω, the `reps` expansion of `PulserData.get_sequences`.
   * `pulser/backend/config.py`: `is_time_in_evaluation_times`, `is_evaluation_time`;
     `pulser/backend/observable.py`: `_validate_eval_times`, `Observable.__call__` (second
@@ -13,7 +13,7 @@
     (the three call sites: t = 0 before the loop, after each step).
 
   Int → scalar conversion (`nat`), `math.floor` (`fl`) and the float literals
-  (`1e-12`, `1e-10`, `0.5`, `1e-6`) are parameters, so that the same definitions run at
+  (`2e-12`, `1e-10`, `0.5`, `1e-6`) are parameters, so that the same definitions run at
   `Float`/`Rat` and are read over an ordered field in `Props/`.
 -/
 import EmuVerif.Model.Scalar
@@ -101,7 +101,7 @@ def mergeGrid (tol : α) (s : List α) : Option (List α) :=
 
 def isZero (x : α) : Bool := eqv x 0
 
-/-- `_get_target_times` given the observable times (`relTol` is the literal `1e-12`; `1e-9` before a740bae). -/
+/-- `_get_target_times` given the observable times (`relTol` is the literal `2e-12`; `1e-9` before a740bae, `1e-12` before b8e723e). -/
 def targetTimesOf (nat : Nat → α) (fl : α → Int) (relTol duration dt : α) (obs : List α) :
     Except Err (List α) :=
   if isZero dt then .error .zeroDiv
@@ -140,11 +140,12 @@ def expandReps {σ τ : Type} (mk : σ → τ) (samples : List (σ × Nat)) : Li
 def inTimes (tol : α) (ts : List α) (t : α) : Bool :=
   decide (0 ≤ t) && decide (t ≤ 1) && ts.any (fun s => decide (absv (s - t) ≤ tol))
 
-/-- `config.is_evaluation_time(t, tol)`; with `"Full"` and `t ∉ [0,1]` numpy fails to convert
-the string (ValueError). -/
+/-- `config.is_evaluation_time(t, tol)`: with `"Full"` every `t ∈ [0,1]` (outside, the `and` of
+`is_time_in_evaluation_times` short-circuits before numpy sees the string: `False`). Never raises;
+the `Except` type is kept for the callers' uniformity. -/
 def isEvalTimeCfg (dflt : Option (List α)) (tol t : α) : Except Err Bool :=
   match dflt with
-  | none => if decide (0 ≤ t) && decide (t ≤ 1) then .ok true else .error .valueError
+  | none => .ok (decide (0 ≤ t) && decide (t ≤ 1))
   | some ds => .ok (inTimes tol ds t)
 
 /-- The test shared by the back-ends' `_is_evaluation_time` and by `Observable.__call__`: the
